@@ -719,6 +719,12 @@ def fromPlacemark (ctx : Dict PVal) (p : Placemark) : Except String (Option Shap
         "address" p.address) "phone_number" p.phone
       pure (some { geom := geom, dt := dt, props := props2 })
 
+/-- `kml.name or 'Unnamed Folder'`: a missing **or empty** name -/
+def folderLabel (name : Option String) : String :=
+  match name with
+  | some n => if n.isEmpty then "Unnamed Folder" else n
+  | none => "Unnamed Folder"
+
 mutual
 /-- `parse_fastkml`: the context dict `_props` and the result list are threaded through the recursion
     exactly as the two mutable arguments are (a sub-folder's name stays in `_props` after the folder
@@ -727,7 +733,7 @@ def parseNode (depth : Nat) (n : KNode) (st : Dict PVal × List Shape) :
     Except String (Dict PVal × List Shape) :=
   match n with
   | .folder name kids =>
-    parseKids (depth + 1) kids (dictSet st.1 s!"sub_folder_{depth}" (.str (name.getD "Unnamed Folder")), st.2)
+    parseKids (depth + 1) kids (dictSet st.1 s!"sub_folder_{depth}" (.str (folderLabel name)), st.2)
   | .document kids => parseKids (depth + 1) kids st
   | .kml kids => parseKids (depth + 1) kids st
   | .pm p => do
